@@ -483,10 +483,11 @@ class Envelope:
                         if destructive:
                             self.polarization._set_measured()
                         else:
-                            self.polarization.state = jnp.zeros((2, 1))
-                            self.polarization.state.at[
-                                1, outcomes[self.polarization]
-                            ].set(1)
+                            self.polarization.state = (
+                                jnp.zeros((2, 1))
+                                .at[outcomes[self.polarization], 0]
+                                .set(1)
+                            )
                             self.polarization.index = None
                     if self.polarization not in states:
                         self.polarization.state = jnp.take(
